@@ -641,7 +641,8 @@ class Interp:
             return NIL
         if k == 'private':
             for name in n[1]:
-                self.scopes[-1][name.lower()] = NIL
+                # declares the name in the current scope; a binding the scope already holds is kept
+                self.scopes[-1].setdefault(name.lower(), NIL)
             return NIL
         if k == 'if':
             if self.ev(n[1]):
